@@ -13,15 +13,15 @@
    follow refines the reference chown (Memfs/RefineChown.v). Memfs/RefineHistory.v puts the calls together: a reference
    filesystem working on the flat tree alone (it resolves its own path arguments against the tree's working directory), and
    the theorem that from every well-formed kind-sound state - the fresh filesystem in particular - ANY history of
-   mkfile, mkdir_p, mkdir_m, write_all, write_lines, append_all, append_line, append_lines, read_all, read_lines, remove, remove_all (off the root), symlink, readlink, readlink_abs, move_p, set_cwd, cwd, abs, chown without follow, chmod with octal modes without follow, mkfile_m, root, exists / is_dir / is_file / is_symlink / is_symlink_dir / is_exec / is_readonly, mode / owner / uid / gid
+   mkfile, mkdir_p, mkdir_m, write_all, write_lines, append_all, append_line, append_lines, read_all, read_lines, remove, remove_all (off the root), symlink, readlink, readlink_abs, move_p, set_cwd, cwd, abs, chown without follow, chmod with octal modes without follow, mkfile_m, root, paths / dirs / files / all_paths / all_dirs / all_files, exists / is_dir / is_file / is_symlink / is_symlink_dir / is_exec / is_readonly, mode / owner / uid / gid
    gives call by call exactly the reference's value or error kind and
-   ends in exactly the reference's tree. PARTIAL: copy, listings, symbolic chmod, and chmod / chown with follow are compared with the real code state-for-state
+   ends in exactly the reference's tree. PARTIAL: copy, entries() with options, symbolic chmod, and chmod / chown with follow are compared with the real code state-for-state
    and judged on pre/post snapshots, and proved safe (no panic, well formed, kind-sound), but their reference-level
    specification is not yet a theorem. *)
 From stdpp Require Import gmap.
 From Coq Require Import NArith.
 From RV Require Import Base.Str Path.Helpers Path.Expand Memfs.State Memfs.Ops Memfs.Step Memfs.Wf Memfs.WfMore Memfs.WfMove
-  Memfs.ContentFacts Memfs.MoveFacts Memfs.Spec Memfs.Refine Memfs.Kinds Memfs.RemoveAll Memfs.RefineMore Memfs.MkdirFail Memfs.RefineChown Memfs.RefineChmod Memfs.RefineMove Memfs.RefineHistory Memfs.Walk Memfs.WalkOps Macros.Asserts.
+  Memfs.ContentFacts Memfs.MoveFacts Memfs.Spec Memfs.Refine Memfs.Kinds Memfs.RemoveAll Memfs.RefineMore Memfs.MkdirFail Memfs.RefineChown Memfs.RefineChmod Memfs.RefineList Memfs.RefineMove Memfs.RefineHistory Memfs.Walk Memfs.WalkOps Macros.Asserts.
 
 Theorem C01_step_no_panic : forall env m o, step env m o <> Panic.
 Proof. exact step_no_panic. Qed.
@@ -144,6 +144,13 @@ Theorem C01_chmod_refines : forall env m s o p r, WF m -> kinds_ok m -> ch_follo
   exists m', chmod_op env m s o = Done (m', inl tt) /\ abs m' = spec_chmod (abs m) p (ch_recursive o) (ch_dirs o) (ch_files o).
 Proof. exact chmod_refines. Qed.
 Print Assumptions C01_chmod_refines.
+
+(* paths / dirs / files / all_paths / all_dirs / all_files of a directory: the reference listing, which is the set of qualifying paths
+   below it in increasing lexicographic order *)
+Theorem C01_listing_refines : forall env m k s p, WF m -> kinds_ok m -> resolve env m s = inl p -> is_dir_at m p = true ->
+  listing_op env m k s = Done (inl (spec_list (abs m) k p)).
+Proof. exact listing_refines. Qed.
+Print Assumptions C01_listing_refines.
 
 (* ... and any history: same results call by call, same tree at the end *)
 Theorem C01_history_refines : forall env os m t rs, WF m -> kinds_ok m -> spec_run env (abs m) os = Some (t, rs) ->
